@@ -53,7 +53,7 @@ pub fn mig_case() -> impl Strategy<Value = MigCase> {
 			}
 		}
 		let zero_salt = cols.iter().any(|c| matches!(c.keyset, KeySet::Crafted { .. }));
-		let cfg = DbCfg { cols, zero_salt, sync_wal: true, sync_data: true };
+		let cfg = DbCfg { cols, zero_salt, sync_wal: true, sync_data: true, always_flush: false };
 		let n = cfg.cols.len();
 		// commits with the pipeline drained now and then, so that removals also hit entries that
 		// already live in their final index page (holes inside a page)
